@@ -894,6 +894,7 @@ def observe_doc(case):
             res2 = X.getInterfacesFromXML(text, not bool(case['replace']))
             obs['recovered2'] = res2
             obs['result2'] = show_result(known_objs, res2, I.DBusInterface.knownInterfaces, new)
+            obs['cache_after2'] = {n: copy.deepcopy(o) for n, o in I.DBusInterface.knownInterfaces.items()}
         except Exception as e:      # noqa
             obs['result2'] = 'err ' + exc_kind(e)
         obs['line'] = 'ok %s|%s|%s|2|%s' % (obs['events'], obs['result'], obs['calls'], obs['result2'])
@@ -1109,6 +1110,16 @@ def judge_doc(ctx, case, obs):
             elif mm:
                 ctx.violation('second-parse-' + mm[0][0], 'a replacing parse after a default-mode parse of the same '
                               'text: ' + mm[0][1], inp, observed=mm[0][2], expected=mm[0][3])
+            # after both parses every declared name went through a replacing parse: whatever the table holds
+            # under it now is what later default-mode parses hand out, so it must be the declared definition
+            entry = (obs.get('cache_after2') or {}).get(spec['name'])
+            if entry is not None:
+                mm = definition_mismatches(spec, entry)
+                if mm:
+                    ctx.violation('table-holds-undeclared-definition', 'after a replacing and a default-mode parse '
+                                  'of the same text the table of known interfaces holds, under a declared name, '
+                                  'something else than the declared definition (%s)' % mm[0][0], inp,
+                                  observed=mm[0][2], expected=mm[0][3])
     elif 'result2' in obs:
         ctx.violation('roundtrip-raises', 'parsing the same generated XML a second time (other flag) raises',
                       inp, observed=obs.get('result2'), expected='a list of interfaces')
